@@ -697,9 +697,7 @@ def draw_step(data, hist, weights=None, max_prs=4):
             sel = {'ref': pick(names, 'ref')}
         return {'op': op, 'sel': sel}
     if op == 'admin':
-        kind = pick(('rebuild_queues', 'delete_queues', 'force_merge_queues',
-                     'create_branch', 'create_branch', 'delete_branch',
-                     'delete_branch', 'eval_pr'), 'akind')
+        kind = pick(ADMIN_KINDS, 'akind')
         args = {}
         if kind == 'create_branch':
             args['branch'] = pick(CREATE_CANDIDATES, 'cbranch')
@@ -725,6 +723,10 @@ def draw_step(data, hist, weights=None, max_prs=4):
         return {'op': op, 'branch': pick(dests or ['development/4.3'], 'mb')}
     return {'op': 'fresh'}
 
+
+ADMIN_KINDS = ('rebuild_queues', 'delete_queues', 'force_merge_queues',
+               'create_branch', 'create_branch', 'delete_branch',
+               'delete_branch', 'eval_pr')
 
 CREATE_CANDIDATES = (
     'development/4.2', 'development/4.4', 'development/5.0',
